@@ -291,8 +291,9 @@ Inductive event :=
 | ERestart (clear : bool)
 | ETickBegin (timeout0 : bool)       (* tick(timeout) called; timeout0: timeout = 0, else a long timeout *)
 | ETick                              (* the UI thread proceeds to its next yield point *)
-| ERun (seen : list N) (end_ : N).   (* the background run proceeds to its next yield point; seen/end_ are
+| ERun (seen : list N) (end_ : N)    (* the background run proceeds to its next yield point; seen/end_ are
                                         only used by the scan phase *)
+| EConfig.                           (* Nucleo::update_config with the configuration the Nucleo was created with *)
 
 Definition enabled_tick (s : nstate) : bool :=
   match tpc s with
@@ -300,6 +301,14 @@ Definition enabled_tick (s : nstate) : bool :=
   | TBeforeLock _ _ => match lock s with Free => true | _ => false end            (* lock_arc blocks *)
   | TBeforeTry _ _ t0 => if t0 then true else match lock s with Free => true | _ => false end
   | _ => true
+  end.
+
+(* Nucleo::update_config takes &mut self (no tick in progress) and locks the worker mutex: the call blocks
+   while the tick / the run holds it *)
+Definition enabled_config (s : nstate) : bool :=
+  match tpc s with
+  | TIdle => match lock s with Free => true | _ => false end
+  | _ => false
   end.
 
 Definition step_tick (s : nstate) : nstate :=
@@ -399,6 +408,12 @@ Definition do_event (s : nstate) (e : event) : nstate :=
     end
   | ETick => if enabled_tick s then step_tick s else s
   | ERun seen end_ => step_run s seen end_
+  | EConfig =>
+    (* when enabled_config s: worker.lock(), every matcher's config overwritten with the value it already has,
+       unlock - all between two yield points, so the lock is Free again; neither flag, the snapshot nor the
+       worker's bookkeeping is touched.  A disabled EConfig (the call would block) is no step, like a disabled
+       ETick: the state is unchanged either way *)
+    s
   end.
 
 Fixpoint run_events (s : nstate) (es : list event) : nstate :=
